@@ -422,7 +422,15 @@ def _make_fields_iterator(
         ]
     # If that didn't work, look for `__slots__`.
     if not public_attribs and hasattr(tp, "__slots__"):
-        public_attribs = [s for s in tp.__slots__ if not s.startswith("_")]
+        # Every class in a hierarchy declares its own slots only (and a lone `str`
+        #   names a single slot): collect them base-first, in declaration order.
+        slots: list[str] = []
+        for cls in reversed(getattr(tp, "__mro__", (tp,))):
+            own = cls.__dict__.get("__slots__", ())
+            for slot in (own,) if isinstance(own, str) else own:
+                if slot not in slots:
+                    slots.append(slot)
+        public_attribs = [s for s in slots if not s.startswith("_")]
     # If we located all public attributes, create a factory function for iterating over
     #   these fields and fetching the value from an instance.
     if public_attribs:
